@@ -86,15 +86,14 @@ class Diagonalization(Function):
         kmat = (eigenvalues.unsqueeze(-1) - eigenvalues.unsqueeze(-2) + 1e-10).reciprocal()
         torch.diagonal(kmat, dim1=-1, dim2=-2).zero_()
 
-        # dU = U(\tilde K^T \hadamard (U^T dL/dU)U^T
-        inner_term = kmat.mT * q_mat.mT.matmul(evecs_grad_output)
-        term1 = q_mat.matmul(inner_term).matmul(q_mat.mT)
+        # dL/dM = U (\tilde K^T \hadamard (U^T dL/dU) + diag(dL/d\Sigma)) U^T: hand the factors (U inner, U) to the
+        # operator's own derivative, so that every tensor of representation() receives its gradient
+        inner_term = kmat.mT * q_mat.mT.matmul(evecs_grad_output) + torch.diag_embed(evals_grad_output)
 
-        # d\Sigma = U dL/d\Sigma U^T
-        term2 = q_mat.matmul(torch.diag_embed(evals_grad_output)).matmul(q_mat.mT)
+        if hasattr(ctx, "_linear_op"):
+            linear_op = ctx._linear_op
+        else:
+            linear_op = ctx.representation_tree(*ctx.saved_tensors[:-2])
+        matrix_arg_grads = linear_op._bilinear_derivative(q_mat.matmul(inner_term), q_mat)
 
-        # finally sum the two
-        dL_dM = term1 + term2
-        output = tuple([None] * 6 + [dL_dM])
-
-        return output
+        return tuple([None] * 6 + list(matrix_arg_grads))
